@@ -25,6 +25,7 @@ import gc
 import hashlib
 import itertools
 import operator
+import os
 import pickle
 import queue
 import random
@@ -1344,12 +1345,23 @@ def make_runner(cfg):
 
 
 def _task_c(arg):
-    cfg, bound, cap = arg
-    st = explore.dfs(make_runner(cfg), bound, max_execs=cap)
+    cfg, bound, cap = arg[:3]
+    prefix = arg[3] if len(arg) > 3 else ()
+    st = explore.dfs(make_runner(cfg), bound, prefix=prefix, max_execs=cap)
     gc.collect()
     d = st.as_dict()
     d['part'] = 'c'
     return d
+
+
+def _split_c(cfg, bound, cap, want):
+    """Expand the first levels of a large exploration in this process and
+    return (stats of those executions, subtree tasks)."""
+    st = explore.Stats()
+    roots = explore.frontier(make_runner(cfg), bound, want, st)
+    gc.collect()
+    per = None if cap is None else max(1, cap // max(1, len(roots)))
+    return st, [(cfg, bound, per, p) for p in roots]
 
 
 def c_configs(tier):
@@ -1402,8 +1414,10 @@ def c_configs(tier):
                   ('call||drop', 1), ('create||drop', 0),
                   ('create||create', 0)):
         if thorough and b == 0:
-            out.append((dict(kind='life', scenario=sc, lines=False), 1,
-                        200000))
+            out.append((dict(kind='life', scenario=sc), 0, None))
+            if sc == 'create||drop':
+                out.append((dict(kind='life', scenario=sc, lines=False), 1,
+                            200000))
         elif thorough:
             out.append((dict(kind='life', scenario=sc), b, None))
             out.append((dict(kind='life', scenario=sc, lines=False), 2,
@@ -1599,8 +1613,11 @@ SAMPLE_TYPES = ('list', 'Namespace', 'BoundedSemaphore', 'Queue', 'Iterator')
 
 def _task(arg):
     kind = arg[0]
-    return {'a': _task_a, 'b': _task_b, 'c': _task_c, 'd': _task_d}[kind](
+    t0 = vos._real['monotonic']()
+    r = {'a': _task_a, 'b': _task_b, 'c': _task_c, 'd': _task_d}[kind](
         arg[1])
+    r['elapsed'] = vos._real['monotonic']() - t0
+    return r
 
 
 def a_tasks(tier):
@@ -1614,6 +1631,55 @@ def a_tasks(tier):
     return out
 
 
+def _bfs_b(rep, tier, seed):
+    """(b): level-synchronous BFS over histories, expansions in parallel."""
+    caps = CAPS[tier]
+    root = run_hist((), tier)
+    stats = dict(states=1, transitions=0, depth=0, samples=[])
+    if root['viol']:
+        rep.violation(root['viol'], dict(harness='c20', part='b',
+                                         hist=[], tier=tier))
+        frontier = []
+    else:
+        frontier = [((), root['events'])]
+    seen = {root['canon']}
+    viol_found = False
+    for depth in range(1, caps['depth'] + 1):
+        exp = [h + (ev,) for h, evs in frontier for ev in evs]
+        if not exp or viol_found:
+            break
+        order = list(range(len(exp)))
+        random.Random(seed + depth).shuffle(order)
+        got = par.pmap('harness.c20:_task',
+                       [('b', (exp[i], tier)) for i in order],
+                       chunksize=max(1, len(exp) // (par.NPROC * 6)))
+        rs = [None] * len(exp)
+        for i, r in zip(order, got):
+            rs[i] = r
+        frontier = []
+        stats['depth'] = depth
+        for h, r in zip(exp, rs):
+            stats['transitions'] += 1
+            if r['viol']:
+                if not viol_found:
+                    rep.violation(r['viol'], dict(
+                        harness='c20', part='b',
+                        hist=[list(e) for e in h], tier=tier))
+                viol_found = True
+                continue
+            if r['canon'] not in seen:
+                seen.add(r['canon'])
+                frontier.append((h, [tuple(e) for e in r['events']]))
+                if len(stats['samples']) < 40:
+                    stats['samples'].append([list(e) for e in h])
+    stats['states'] = len(seen)
+    smp = stats['samples']
+    return dict(evaluations=stats['transitions'] + 1,
+                states=stats['states'], transitions=stats['transitions'],
+                outcomes=seen, samples=smp[-2:] if smp else [],
+                max_depth=stats['depth'], caps_used=caps)
+
+
 def main(tier, seed, only=None):
     rep = report.Report(PID, tier, seed)
     want = (lambda p: only is None or p in only)
@@ -1621,7 +1687,14 @@ def main(tier, seed, only=None):
     if want('a'):
         tasks += a_tasks(tier)
     ccfg = c_configs(tier) if want('c') else []
-    tasks += [('c', c) for c in ccfg]
+    pre_c = []
+    for cfg, bound, cap in ccfg:
+        if cfg['kind'] == 'life' or bound >= 2 or cap is not None:
+            st, subs = _split_c(cfg, bound, cap, 12)
+            pre_c.append((cfg, st))
+            tasks += [('c', sub) for sub in subs]
+        else:
+            tasks.append(('c', (cfg, bound, cap)))
     if want('d'):
         tasks += [('d', kv) for kv in key_variants(tier)]
     order = list(range(len(tasks)))
@@ -1630,13 +1703,28 @@ def main(tier, seed, only=None):
     # so that the workers stay busy to the end
     order.sort(key=lambda i: {'c': 0, 'a': 1, 'd': 2}[tasks[i][0]])
     res = [None] * len(tasks)
+    pending = None
+    if tasks and par.NPROC > 1:
+        # submitted first; part (b)'s BFS levels below fill the workers
+        # that fall idle while the longest explorations finish
+        pending = par.pool().map_async(
+            par._call, [('harness.c20:_task', tasks[i]) for i in order], 1)
+    b_result = _bfs_b(rep, tier, seed) if want('b') else None
     if tasks:
-        got = par.pmap('harness.c20:_task', [tasks[i] for i in order])
+        got = pending.get() if pending is not None else \
+            [_task(tasks[i]) for i in order]
         for i, r in zip(order, got):
             res[i] = r
 
     nviol = collections.Counter()
     nrep = collections.Counter()
+    if os.environ.get('C20_TIMING'):
+        tt = sorted(((r['elapsed'], t) for t, r in zip(tasks, res)),
+                    key=lambda x: -x[0])
+        print('main pmap done at %.1fs; cpu %.0fs; slowest:' % (
+            vos._real['time']() - rep.t0, sum(x[0] for x in tt)))
+        for e, t in tt[:8]:
+            print('  %.1fs %r' % (e, t))
 
     # ---- (a)
     by_type = collections.OrderedDict()
@@ -1678,16 +1766,16 @@ def main(tier, seed, only=None):
 
     # ---- (c)
     by_kind = {}
-    for t, r in zip(tasks, res):
-        if t[0] != 'c':
-            continue
-        cfg = t[1][0]
+    c_res = [(cfg, st.as_dict(), True) for cfg, st in pre_c] + \
+        [(t[1][0], r, len(t[1]) <= 3) for t, r in zip(tasks, res)
+         if t[0] == 'c']
+    for cfg, r, is_cfg in c_res:
         name = 'conc:' + (cfg['type'] if cfg['kind'] == 'lin'
                           else 'lifetime')
         st = by_kind.setdefault(name, explore.Stats())
         st.merge(r)
         st.__dict__.setdefault('configs', 0)
-        st.configs += 1
+        st.configs += 1 if is_cfg else 0
         for ch, msg in r['violations']:
             nviol['c'] += 1
             if nviol['c'] <= MAX_REPORT:
@@ -1715,53 +1803,8 @@ def main(tier, seed, only=None):
                  outcomes=dd['outcomes'], samples=dd['samples'][:2],
                  variants=len(key_variants(tier)), paths=len(D_PATHS))
 
-    # ---- (b) level-synchronous BFS, expansions in parallel
-    if want('b'):
-        caps = CAPS[tier]
-        root = run_hist((), tier)
-        stats = dict(states=1, transitions=0, depth=0, samples=[])
-        if root['viol']:
-            rep.violation(root['viol'], dict(harness='c20', part='b',
-                                             hist=[], tier=tier))
-            frontier = []
-        else:
-            frontier = [((), root['events'])]
-        seen = {root['canon']}
-        viol_found = False
-        for depth in range(1, caps['depth'] + 1):
-            exp = [h + (ev,) for h, evs in frontier for ev in evs]
-            if not exp or viol_found:
-                break
-            order = list(range(len(exp)))
-            random.Random(seed + depth).shuffle(order)
-            got = par.pmap('harness.c20:_task',
-                           [('b', (exp[i], tier)) for i in order],
-                           chunksize=max(1, len(exp) // (par.NPROC * 6)))
-            rs = [None] * len(exp)
-            for i, r in zip(order, got):
-                rs[i] = r
-            frontier = []
-            stats['depth'] = depth
-            for h, r in zip(exp, rs):
-                stats['transitions'] += 1
-                if r['viol']:
-                    if not viol_found:
-                        rep.violation(r['viol'], dict(
-                            harness='c20', part='b',
-                            hist=[list(e) for e in h], tier=tier))
-                    viol_found = True
-                    continue
-                if r['canon'] not in seen:
-                    seen.add(r['canon'])
-                    frontier.append((h, [tuple(e) for e in r['events']]))
-                    if len(stats['samples']) < 40:
-                        stats['samples'].append([list(e) for e in h])
-        stats['states'] = len(seen)
-        smp = stats['samples']
-        rep.part('lifetime', evaluations=stats['transitions'] + 1,
-                 states=stats['states'], transitions=stats['transitions'],
-                 outcomes=seen, samples=smp[-2:] if smp else [],
-                 max_depth=stats['depth'], caps_used=caps)
+    if b_result is not None:
+        rep.part('lifetime', **b_result)
 
     for part, n in sorted(nviol.items()):
         if n > MAX_REPORT:
